@@ -190,6 +190,37 @@ func r39JSONKeysAgree(c *core.Ctx) {
 					cd.required[l.key] = true
 				}
 			}
+			// keys read by package helpers that are handed the decoded map (shared "optional description" code)
+			ast.Inspect(m.Decl.Body, func(n ast.Node) bool {
+				call, ok := n.(*ast.CallExpr)
+				if !ok {
+					return true
+				}
+				cal := core.Callee(info, call)
+				if cal == nil {
+					return true
+				}
+				h := c.P.ByObj[cal.Origin()]
+				if h == nil || h.Pkg != pk || h.Decl.Body == nil || h.Decl.Recv != nil {
+					return true
+				}
+				passesMap := false
+				for _, a := range call.Args {
+					if t := info.TypeOf(a); t != nil && isStringAnyMap(t) {
+						passesMap = true
+					}
+				}
+				if !passesMap {
+					return true
+				}
+				for _, l := range constKeyLookups(info, h.Decl) {
+					cd.reader[l.key] = true
+					if requiredLookup(c.P, info, h.Decl.Body, l.expr) {
+						cd.required[l.key] = true
+					}
+				}
+				return true
+			})
 		}
 		codecs = append(codecs, cd)
 		c.Saw(R, fmt.Sprintf("tms20.%s: writes %s reads %s requires %s", tn, setStr(cd.writer), setStr(cd.reader), setStr(cd.required)))
@@ -265,6 +296,12 @@ func requiredLookup(p *core.Prog, info *types.Info, body *ast.BlockStmt, ix *ast
 			if s == ast.Stmt(as) && k+1 < len(list) {
 				if is, ok := list[k+1].(*ast.IfStmt); ok && is.Init == nil {
 					if u, ok := ast.Unparen(is.Cond).(*ast.UnaryExpr); ok && u.Op == token.NOT && core.ObjOf(info, u.X) == okObj && okObj != nil {
+						// absence must end in an error (or abort), not in a quiet `return nil`
+						if len(is.Body.List) > 0 {
+							if ret, isRet := is.Body.List[len(is.Body.List)-1].(*ast.ReturnStmt); isRet {
+								return returnsError(p, info, is.Body) && len(ret.Results) > 0
+							}
+						}
 						return terminates(p, info, is.Body)
 					}
 				}
@@ -707,6 +744,6 @@ func r40DecodeTotal(c *core.Ctx) {
 	c.Check(R, "no-explicit-panic-on-decode/summary", token.NoPos, npanic == 0, fmt.Sprintf("no explicit panic in the %d module functions of the decode graph", len(decodeFuncs)), "explicit panics on the decode graph")
 	c.FloorPrefix(R, "assertion-checked/", 12)
 	c.FloorPrefix(R, "submatch-index-in-range/", 3)
-	c.FloorPrefix(R, "lookup-checked/", 9)
+	c.FloorPrefix(R, "lookup-checked/", 6)
 	c.FloorPrefix(R, "positive-constraint/", 6)
 }
